@@ -14,6 +14,7 @@ import Driver.VP8Recon
 import Driver.Writer
 import Driver.VP8LEntropy
 import Driver.CodecFront
+import Driver.BoolCoder
 /-
   webpdrv — line protocol: one operation per input line (`op arg arg …`), one canonical
   output line per operation.  Unknown or malformed operations answer `bad-op` (never a default).
@@ -34,7 +35,8 @@ def dispatch (line : String) : String :=
            <|> Driver.VP8Recon.handle op args
            <|> Driver.Writer.handle op args
            <|> Driver.VP8LEntropy.handle op args
-           <|> Driver.CodecFront.handle op args) with
+           <|> Driver.CodecFront.handle op args
+           <|> Driver.BoolCoder.handle op args) with
     | some r => r
     | none => "bad-op"
 
